@@ -202,4 +202,193 @@ theorem app_trace_chunking_irrelevant (cfg : Ts.App.Cfg) (chunks : List Bytes)
     ∃ t' c', Ts.App.runApp cfg chunks = .ok (t', c') ∧ c'.trace = c.trace :=
   ⟨t, c, by rw [app_chunking_irrelevant cfg chunks h, hr], rfl⟩
 
+/-! ## The framing, characterised exactly (byte level)
+
+`Props.C07.frame_packets_wellformed` above is soundness only.  The theorems below say exactly which
+packets `push(buf)` iterates over, in terms of the bytes of `buf`:
+`chunkAt buf k = buf[188k .. 188k+188)` and `pktAt buf base k` = the packet made of that chunk if its
+first byte is `0x47` (definitions in `Ts/Lemmas/C06b.lean`, read back by `chunkAt_spec`,
+`pktAt_spec`). -/
+
+open Ts.Spec in
+/-- **FRAMING.**  `frame buf base` never panics and yields exactly, in buffer order, for
+`k = 0, 1, …, buf.length / 188 - 1`, the packet `pktAt buf base k` of every 188-byte chunk
+`buf[188k .. 188k+188)` whose first byte is the sync byte `0x47` — each such chunk exactly once, no
+other packet.  The trailing `buf.length % 188` bytes are not looked at (`frame_ignores_tail`). -/
+theorem frame_spec (buf : Bytes) (base : Nat) :
+    frame buf base = .ok ((List.range (buf.length / 188)).filterMap (pktAt buf base)) := by
+  rw [frame_eq_pure, framePure_chunks_eq]
+
+/-- the `k`-th chunk: 188 bytes, byte `i` of it is byte `188k + i` of the buffer -/
+theorem chunkAt_spec (buf : Bytes) (k : Nat) (hk : k < buf.length / 188) :
+    chunkAt buf k = (buf.drop (188 * k)).take 188 ∧ (chunkAt buf k).length = 188 ∧
+    ∀ i, i < 188 → byteD (chunkAt buf k) i = byteD buf (188 * k + i) := by
+  refine ⟨rfl, chunkAt_length buf k hk, fun i hi => ?_⟩
+  unfold chunkAt
+  rw [byteD_take _ _ _ hi, byteD_drop]
+
+open Ts.Spec in
+/-- the packet made of the `k`-th chunk: none unless the chunk starts with the sync byte; otherwise
+the chunk's bytes unmodified, `off = base + 188k`, and the header fields read bit by bit as in
+ISO/IEC 13818-1 2.4.3.2: `transport_error_indicator` = bit 8, `PID` = the 13 bits from bit 11,
+`transport_scrambling_control` = the 2 bits from bit 24 (scrambled iff non-zero) -/
+theorem pktAt_spec (buf : Bytes) (base k : Nat) :
+    (byteD (chunkAt buf k) 0 ≠ 0x47 → pktAt buf base k = none) ∧
+    (byteD (chunkAt buf k) 0 = 0x47 →
+      ∃ pk, pktAt buf base k = some pk ∧ pk.bytes = chunkAt buf k ∧ pk.off = base + 188 * k ∧
+        pk.pid = readBits pk.bytes 11 13 ∧ pk.tei = (readBits pk.bytes 8 1 == 1) ∧
+        pk.scrambled = (readBits pk.bytes 24 2 != 0)) := by
+  unfold pktAt
+  constructor
+  · intro h; simp only [h, if_false]
+  · intro h; simp only [h, if_true]; exact ⟨_, rfl, rfl, rfl, rfl, rfl, rfl⟩
+
+open Ts.Spec in
+/-- the same three fields in byte arithmetic: `PID = (b1 mod 32)·256 + b2`, TEI = top bit of `b1`,
+scrambling control = top two bits of `b3` -/
+theorem header_fields_arith (p : Bytes) :
+    readBits p 11 13 = (byteD p 1 % 32) * 256 + byteD p 2 ∧
+    readBits p 8 1 = byteD p 1 / 128 ∧
+    readBits p 24 2 = byteD p 3 / 64 := by
+  have e : readBits p 11 13 = readBits p 11 5 * 2^8 + readBits p (11 + 5) 8 := readBits_add p 11 5 8
+  have r1 := readBits_sub p 1 3 5 (by omega)
+  have r2 := readBits_byte p 2
+  have r3 := readBits_sub p 1 0 1 (by omega)
+  have r4 := readBits_sub p 3 0 2 (by omega)
+  simp only [Nat.mul_one, Nat.add_zero] at r1 r3 r4
+  have b1 := byteD_lt p 1
+  have b3 := byteD_lt p 3
+  refine ⟨?_, ?_, ?_⟩
+  · rw [e, r1, r2]; omega
+  · rw [r3]; omega
+  · rw [r4]; omega
+
+/-- COMPLETENESS: every whole chunk with a valid sync byte IS passed, as the packet `pktAt` -/
+theorem frame_complete (buf : Bytes) (base k : Nat) (hk : k < buf.length / 188)
+    (hs : byteD buf (188 * k) = 0x47) :
+    ∃ pks pk, frame buf base = .ok pks ∧ pk ∈ pks ∧ pktAt buf base k = some pk ∧
+      pk.bytes = chunkAt buf k ∧ pk.off = base + 188 * k := by
+  have h0 : byteD (chunkAt buf k) 0 = 0x47 := by
+    rw [(chunkAt_spec buf k hk).2.2 0 (by omega)]; exact hs
+  obtain ⟨pk, h1, h2, h3, _⟩ := (pktAt_spec buf base k).2 h0
+  refine ⟨_, pk, frame_spec buf base, ?_, h1, h2, h3⟩
+  rw [List.mem_filterMap]
+  exact ⟨k, List.mem_range.2 hk, h1⟩
+
+/-- SOUNDNESS: every packet passed is `pktAt` of a whole chunk, which starts with the sync byte -/
+theorem frame_sound (buf : Bytes) (base : Nat) (pks : List Pk) (h : frame buf base = .ok pks) :
+    ∀ pk ∈ pks, ∃ k, k < buf.length / 188 ∧ pktAt buf base k = some pk ∧
+      byteD buf (188 * k) = 0x47 ∧ pk.bytes = chunkAt buf k ∧ pk.off = base + 188 * k := by
+  rw [frame_spec] at h
+  injection h with h
+  subst h
+  intro pk hpk
+  rw [List.mem_filterMap] at hpk
+  obtain ⟨k, hk, hp⟩ := hpk
+  have hk' := List.mem_range.1 hk
+  refine ⟨k, hk', hp, ?_⟩
+  by_cases h0 : byteD (chunkAt buf k) 0 = 0x47
+  · obtain ⟨pk', h1, h2, h3, _⟩ := (pktAt_spec buf base k).2 h0
+    rw [hp] at h1
+    injection h1 with h1
+    subst h1
+    refine ⟨?_, h2, h3⟩
+    have hb := (chunkAt_spec buf k hk').2.2 0 (by omega)
+    rw [Nat.add_zero] at hb
+    rw [← hb]; exact h0
+  · rw [(pktAt_spec buf base k).1 h0] at hp; cases hp
+
+/-- IN ORDER, each chunk at most once: the stream offsets of the framed packets strictly increase -/
+theorem frame_offsets_increasing (buf : Bytes) (base : Nat) (pks : List Pk)
+    (h : frame buf base = .ok pks) : (pks.map (·.off)).Pairwise (· < ·) := by
+  rw [frame_spec] at h
+  injection h with h
+  subst h
+  rw [List.pairwise_map, List.pairwise_filterMap]
+  refine List.Pairwise.imp ?_ (List.pairwise_lt_range (n := buf.length / 188))
+  intro a b hab pa ha pb hb
+  have offOf : ∀ k pk, pktAt buf base k = some pk → pk.off = base + 188 * k := by
+    intro k pk hp
+    unfold pktAt at hp
+    simp only [] at hp
+    split at hp
+    · injection hp with hp; rw [← hp]
+    · cases hp
+  rw [offOf a pa ha, offOf b pb hb]
+  omega
+
+/-- the trailing `buf.length % 188` bytes are ignored: framing the buffer = framing its longest
+prefix made of whole chunks -/
+theorem frame_ignores_tail (buf : Bytes) (base : Nat) :
+    frame buf base = frame (buf.take (188 * (buf.length / 188))) base := by
+  rw [frame_spec, frame_spec]
+  have hl : (buf.take (188 * (buf.length / 188))).length / 188 = buf.length / 188 := by
+    rw [List.length_take, Nat.min_eq_left (Nat.mul_div_le _ _), Nat.mul_div_cancel_left _ (by omega)]
+  rw [hl]
+  congr 1
+  apply filterMap_congr'
+  intro k hk
+  have hk' := List.mem_range.1 hk
+  unfold pktAt
+  rw [chunkAt_take buf k hk']
+
+/-- … and more generally any two buffers that agree on their whole chunks frame alike -/
+theorem frame_tail_irrelevant (buf tail tail' : Bytes) (base : Nat) (hb : buf.length % 188 = 0)
+    (h1 : tail.length < 188) (h2 : tail'.length < 188) :
+    frame (buf ++ tail) base = frame (buf ++ tail') base := by
+  rw [frame_append buf tail base hb, frame_append buf tail' base hb]
+  have e1 : frame tail (base + buf.length) = .ok [] := by
+    rw [frame_eq_pure, chunks_short tail h1]; rfl
+  have e2 : frame tail' (base + buf.length) = .ok [] := by
+    rw [frame_eq_pure, chunks_short tail' h2]; rfl
+  rw [e1, e2]
+
+/-- **C06 + C07 on raw bytes**, for every handler semantics: if one `push` of `buf` under the logging
+wrapper (`C06.logSem`) succeeds, the packets handed to `consume` during that `push` — all handlers
+together, in call order — are exactly the non-flagged ones among the chunks of `buf` that start with
+the sync byte, in buffer order, each once and unmodified; and the `push` without logging gives the
+same table and context. -/
+theorem push_delivers_framed (sem : Sem H C) (t : Tab H) (c : C) (buf : Bytes) (base : Nat)
+    (t' : Tab H) (c' : C) (log : List (H × Pk))
+    (h : push (logSem sem) (t, (c, [])) buf base = .ok (t', (c', log))) :
+    log.map (·.2) =
+      ((List.range (buf.length / 188)).filterMap (pktAt buf base)).filter (fun pk => !pk.flagged) ∧
+    push sem (t, c) buf base = .ok (t', c') := by
+  obtain ⟨pks, hf, h1, _, h3⟩ := C06.delivered_exactly_once_in_order_push sem t c buf base t' c' log h
+  rw [frame_spec] at hf
+  injection hf with hf
+  subst hf
+  exact ⟨h1, h3⟩
+
+/-! ### non-vacuity of the framing theorems -/
+
+/-- a buffer of two valid packets (PID 5; PID 1 with TEI set and scrambling `01`), one chunk without
+sync byte between them, and 3 trailing bytes: exactly the two valid chunks are framed, at offsets
+`base` and `base + 376`, with the fields of bytes 1-3 -/
+private def pktBad : Bytes := List.replicate 188 0
+private def pkt1f : Bytes := [0x47, 0x80, 0x01, 0x50] ++ List.replicate 184 0
+
+example : frame (pkt5 ++ pktBad ++ pkt1f ++ [0x47, 1, 2]) 1000 =
+    .ok [⟨pkt5, 1000, 5, false, false⟩, ⟨pkt1f, 1376, 1, true, true⟩] := by
+  rw [frame_spec]; exact congrArg R.ok (by decide +kernel)
+
+/-- `frame_complete` applies to chunk 2 of that buffer -/
+example : ∃ pks pk, frame (pkt5 ++ pktBad ++ pkt1f ++ [0x47, 1, 2]) 1000 = .ok pks ∧ pk ∈ pks ∧
+    pk.off = 1376 := by
+  obtain ⟨pks, pk, h1, h2, _, _, h5⟩ :=
+    frame_complete (pkt5 ++ pktBad ++ pkt1f ++ [0x47, 1, 2]) 1000 2 (by decide +kernel) (by decide +kernel)
+  exact ⟨pks, pk, h1, h2, h5⟩
+
+/-- `push_delivers_framed` on that buffer with `exSem`: the scrambled/TEI packet reaches no handler -/
+example : push (logSem exSem) ([], ([], [])) (pkt5 ++ pktBad ++ pkt1f ++ [0x47, 1, 2]) 1000 =
+    .ok ([none, some 0, none, none, none, some 1],
+      ([9005, 500, 9001], [(0, ⟨pkt5, 1000, 5, false, false⟩)])) := by
+  have hc : (match push (logSem exSem) ([], ([], [])) (pkt5 ++ pktBad ++ pkt1f ++ [0x47, 1, 2]) 1000 with
+      | .ok r => decide (r = ([none, some 0, none, none, none, some 1],
+          ([9005, 500, 9001], [(0, ⟨pkt5, 1000, 5, false, false⟩)])))
+      | .panic _ => false) = true := by decide +kernel
+  cases hr : push (logSem exSem) ([], ([], [])) (pkt5 ++ pktBad ++ pkt1f ++ [0x47, 1, 2]) 1000 with
+  | panic s => rw [hr] at hc; cases hc
+  | ok r => rw [hr] at hc; rw [of_decide_eq_true hc]
+
 end Ts.Props.C07
